@@ -7,7 +7,7 @@ from concurrent.futures import ThreadPoolExecutor
 from vlib import tlc
 from vlib.common import Broken
 
-CFGS = ["a", "b", "c"]   # a: user Free, no closer; b: user Free + connection close; c: connection close, user keeps channel
+CFGS = ["a", "b", "c", "d", "e"]   # a: user Free, no closer; b: user Free + connection close; c: connection close, user keeps channel; d, e: as a, b with SendAndClose before Free
 
 
 def replay_parallel(ctx, binp, path, procs=8, timeout=1500):
@@ -70,7 +70,9 @@ def run(ctx):
         "invariants": ["NoLibraryPanic", "NoUserPanic", "NoUseAfterRelease", "RefsNonNegative", "ReleasedOnce", "NoPrematureRelease", "EndedClean"],
         "configs": {"a": "user Free vs send loop vs receive loop (frames in flight: data*, close)",
                     "b": "the same plus connection close (via receive-loop end or send-loop failure)",
-                    "c": "connection close vs peer close while the user keeps the channel; later user calls must not panic"},
+                    "c": "connection close vs peer close while the user keeps the channel; later user calls must not panic",
+                    "d": "user SendAndClose then Free vs send loop vs receive loop",
+                    "e": "the same plus connection close"},
         "explanation": "exhaustive TLC over all interleavings of the atomic operations on {reference count, state pointer, closed flag, "
                        "channel map, write queue} of one channel for six in-flight frame sequences; simulated behaviours are executed "
                        "on the real client connection against a scripted raw server: the verif gates park user, send loop, receive loop "
